@@ -373,6 +373,30 @@ func isLogCall(e ast.Expr) bool {
 	return strings.HasPrefix(n, "log.") || strings.HasPrefix(n, "stats.Record") || n == "vhook"
 }
 
+var builtinFuncs = map[string]bool{"len": true, "cap": true, "string": true, "int": true, "int64": true, "uint64": true, "float64": true,
+	"append": true, "make": true, "new": true, "error": true, "byte": true, "rune": true, "bool": true, "uint": true, "int32": true, "uint32": true}
+
+// logArgCalls: package-level functions called inside the arguments of a log statement. The statement itself leaves no
+// trace in a skeleton, but code it runs does (a helper that formats a stack, say, runs inside the function).
+func logArgCalls(e ast.Expr) []string {
+	c, ok := e.(*ast.CallExpr)
+	if !ok {
+		return nil
+	}
+	var out []string
+	for _, a := range c.Args {
+		ast.Inspect(a, func(n ast.Node) bool {
+			if cc, ok := n.(*ast.CallExpr); ok {
+				if id, ok := cc.Fun.(*ast.Ident); ok && !builtinFuncs[id.Name] {
+					out = append(out, id.Name)
+				}
+			}
+			return true
+		})
+	}
+	return out
+}
+
 // exprLine renders an expression with function literals replaced by "func{…}" and returns them.
 func (p *pkgInfo) exprLine(n ast.Node) (string, []*ast.FuncLit) {
 	var lits []*ast.FuncLit
@@ -404,6 +428,9 @@ func (p *pkgInfo) skel(stmts []ast.Stmt, depth int, out *[]string) {
 		switch x := st.(type) {
 		case *ast.ExprStmt:
 			if isLogCall(x.X) {
+				if cs := logArgCalls(x.X); len(cs) > 0 {
+					emit("log-args call " + strings.Join(cs, ", "))
+				}
 				continue
 			}
 			simple(x, "")
